@@ -45,6 +45,11 @@ theorem stepGiveup_base (w : World) : (stepGiveup w).base = w.base := by
   repeat' split
   all_goals first | rfl | simp only [settle_base]
 
+theorem stepExpire_base (w : World) : (stepExpire w).base = w.base := by
+  unfold stepExpire
+  repeat' split
+  all_goals first | rfl | simp only [settle_base]
+
 theorem stepWait_base (w : World) : (stepWait w).base = w.base := by
   unfold stepWait
   split
@@ -62,6 +67,7 @@ theorem step_base (w : World) (a : Action) : (step w a).base = w.base := by
   | bcast o => exact stepBcast_base w o
   | gettx m => exact stepGetTx_base w m
   | giveup => exact stepGiveup_base w
+  | expire => exact stepExpire_base w
   | wait => exact stepWait_base w
   | poll => simp only [step]; split <;> first | rfl | simp only [settle_base]
   | restart => simp only [step]; split <;> rfl
